@@ -10,7 +10,8 @@ from ..ref import meta as rm
 from ..ref import midi as ref
 
 PROP = 'C14'
-TIMES = (0, 1, -5, 0.5, 1e-7, 1e300, 2 ** 70, -0.0, 123456789.125, -3.75)
+TIMES = (0, 1, -5, 0.5, 1e-7, 1e300, 2 ** 70, -0.0, 123456789.125, -3.75,
+         2 ** 53 + 1, 10 ** 23, -(2 ** 64 + 1), 10 ** 400, 1e16, 1.7976931348623157e308)
 
 
 def namespace(mido):
